@@ -1,5 +1,6 @@
 import AkVerif.Model.Sticky
-import AkVerif.Props.C11
+import AkVerif.Lemmas.WireRT
+import AkVerif.Gen.Schemas
 import AkVerif.Lemmas.StickyInit
 /-!
 # C15 — sticky assignor keeps assignments that need not move  (PARTIAL)
@@ -76,7 +77,7 @@ theorem userData_schema :
 /-- previous assignments survive the real encoding: decode (encode v) = v -/
 theorem userData_roundtrip (t : Ty) (_ht : userDataTy = some t) (v : Val) (bs : Bytes)
     (h : encode t v = some bs) : decode t bs = some (v, []) := by
-  have := wire_roundtrip t v bs [] h
+  have := wireRoundtrip_core t v bs [] h
   simpa using this
 
 /-- **clause (a), partial**: for the Lean port of the sticky assignor (tied to the code by T-diff on
